@@ -200,8 +200,11 @@ func TestC14CrossNode(t *testing.T) {
 				}
 				// destinations known to the publishing node at publish time
 				known := map[int]bool{}
-				for _, s := range w.Node(p.Publisher).DState.Subscriptions().ByPattern([]byte("_default/" + topic)) {
-					known[int(s.Peer)] = true
+				for _, s := range w.Node(p.Publisher).DState.Subscriptions().All() {
+					// from the node's listing + the reference matcher, not from the lookup the publish path itself uses
+					if f := strings.TrimPrefix(string(s.Pattern), "_default/"); f != string(s.Pattern) && refMatchTopic(f, topic) {
+						known[int(s.Peer)] = true
+					}
 				}
 				unreach := map[int]bool{}
 				for _, u := range p.Unreachable {
